@@ -4,6 +4,9 @@
      {"ev":"Call","step":label,"d":{"slot":..,"type":..},"pks":[..],"err":kind,"share":k,"root":r,"obs":[records]}
      {"ev":"Deadline","d":..,"fired":bool,"obs":[records]}      the analyser deadline of d passes
      {"ev":"Delete","d":..,"fired":bool,"obs":[records]}        the deleter deadline of d passes
+     {"ev":"End","obs":[records]}                               end of the schedule
+   (Counter movements are gathered at Deadline / Delete / End; after a Call only the log is inspected: a report made while
+   an event is merely recorded shows up in the next gathered observation, where it matches nothing.)
    `obs` is everything the tracker instrumented while processing the stimulus: one record per counter of package
    core/tracker that moved and per "Duty failed" log record.  The spec computes what the reason table demands (variable
    obs); the logged set is kept in `seen` and compared in the CONSTRAINT, split by reporter so that the verdict names
@@ -26,7 +29,10 @@ TDeadline == /\ IsEvent("Deadline") /\ Ev.fired = AnaFires(Ev.d)
 TDelete == /\ IsEvent("Delete") /\ Ev.fired = DelFires(Ev.d)
            /\ Delete(Ev.d)
            /\ seen' = SeqToSet(Ev.obs)
-TraceNext == TReset \/ TCall \/ TDeadline \/ TDelete
+TEnd == /\ IsEvent("End") /\ l = TLen
+        /\ obs' = {} /\ seen' = SeqToSet(Ev.obs)
+        /\ UNCHANGED <<conf, events, anaAdded, anaExp, delAdded, delExp, aggSup, conSup, reports>>
+TraceNext == TReset \/ TCall \/ TDeadline \/ TDelete \/ TEnd
 TraceSpec == TraceInit /\ [][TraceNext]_tvars
 
 DutyMetrics == {"log_failed", "expect_duties_total", "failed_duties_total", "failed_duty_reasons_total", "success_duties_total",
